@@ -161,7 +161,7 @@ def build():
         // the key pair handed to the CSR is the key in the key file: read from it, or generated and written to it
         r matches Ok(k) ==> final(w).fs.files.contains_key(file_path_spec(cert.file_manager, FileType::PrivateKey))
             && (final(w).fs.files[file_path_spec(cert.file_manager, FileType::PrivateKey)] == key_pem(k)
-                || pem_key(final(w).fs.files[file_path_spec(cert.file_manager, FileType::PrivateKey)]) == Some(k)), //@C01.key_pair_is_the_key_in_the_key_file
+                || pem_key(final(w).fs.files[file_path_spec(cert.file_manager, FileType::PrivateKey)]) == Some(k)), //@C01.key_pair_is_the_key_in_the_key_file,C03.key_of_the_coming_certificate_is_the_key_in_the_key_file
 """
     for name in ["gen_key_pair", "read_key_pair", "get_key_pair"]:
         u.verify(PCF, name, "acme_proto::certificate", props=["C01", "C03"], fns={name: FnSpec(ret="r", ghost=True, sig=key_ok)})
